@@ -53,7 +53,11 @@ theorem index_on_object (env : Env) (n : Node) (kvs : List (Str × J)) (i : Int)
   exact Lemmas.index_on_object env n kvs i h
 
 /-! ### Non-vacuity -/
-example : Rfc.sliceIndices (some 5) (some (-6)) (some (-2)) 4 = [3, 1] := by decide
+example : Rfc.sliceIndices (some 5) (some (-6)) (some (-2)) 4 = [3, 1] := by
+  simp [Rfc.sliceIndices, Rfc.bounds, Rfc.normalize, Int.min_def, Int.max_def]
+  rw [Rfc.loopDown]; simp
+  rw [Rfc.loopDown]; simp
+  rw [Rfc.loopDown]; simp
 example : codeSlice none none (some (-1)) 3 = [2, 1, 0] := by decide
 example : plainSegs [.desc, .child [.name ['a'], .slice none (some 2) none, .wild]] = true ∧
     Rfc.wellFormedSegs [.desc, .child [.name ['a'], .slice none (some 2) none, .wild]] = true := by decide
